@@ -60,6 +60,11 @@ func c30Scenarios() []vshard.Scenario {
 				}
 			})
 			for i, c := range codes {
+				if c == "!invalidate" {
+					hl.InvalidateCache() // what edit:apply-autofix and friends do
+					check("after InvalidateCache")
+					continue
+				}
 				t, _ := hl.Get(c)
 				if got := c30Text(t); got != c {
 					vsched.Logf("WRONG Get(%q) returned text %q", c, got)
@@ -79,7 +84,11 @@ func c30Scenarios() []vshard.Scenario {
 			// let every late goroutine finish, then look again
 			vsched.WaitUntil("quiesce", func() bool { return true })
 			check("end")
-			t, _ := hl.Get(codes[len(codes)-1])
+			last := codes[len(codes)-1]
+			t, _ := hl.Get(last)
+			if got := c30Text(t); got != last {
+				vsched.Logf("WRONG final Get(%q) returned text %q", last, got)
+			}
 			vsched.Logf("final style %s", c30Style(t))
 		}
 		return vshard.Scenario{Name: name, Body: body, Oracle: func(r *vsched.Result) (string, string) {
@@ -102,6 +111,10 @@ func c30Scenarios() []vshard.Scenario {
 		mk("A-B-A", []string{"echo a", "ls b", "echo a"}),
 		mk("typing", []string{"e", "ec", "echo", "echo x"}),
 		mk("A-B", []string{"echo a; nop b", "ls"}),
+		// cache invalidation followed by other (also empty) code, as after applying an autofix and clearing the line
+		mk("A-invalidate-empty", []string{"echo a", "!invalidate", ""}),
+		mk("A-invalidate-A-empty-A", []string{"ls", "!invalidate", "ls", "", "ls"}),
+		mk("empty-A-empty", []string{"", "echo a", ""}),
 	}
 }
 
@@ -116,7 +129,7 @@ func TestVerifC30(t *testing.T) {
 	}
 	vk.Run(t, "C30", "exploration", func(c *vk.Ctx) {
 		n := vk.Pick(c, 3, 4)
-		c.Rule(fmt.Sprintf("(1) every string of <=%d tokens over a 34-token alphabet highlighted with no configuration, with the real Evaler's Check, and with an instant HasCommand: the segments must concatenate to the code; class = (styles used, number of tips). (2) the Highlighter under the controlled scheduler: an editor thread calling Get for 3 buffer sequences while the command lookup is slow and the 10 ms timer may fire at any moment, plus an observer thread; every schedule with <=%d departures from the default goroutine; the cache must always hold text equal to its code and Get(c) must return text c", n, cfg.Bound))
+		c.Rule(fmt.Sprintf("(1) every string of <=%d tokens over a 34-token alphabet highlighted with no configuration, with the real Evaler's Check, and with an instant HasCommand: the segments must concatenate to the code; class = (styles used, number of tips). (2) the Highlighter under the controlled scheduler: an editor thread calling Get for 6 buffer sequences (three of them with cache invalidation and the empty buffer) while the command lookup is slow and the 10 ms timer may fire at any moment, plus an observer thread; every schedule with <=%d departures from the default goroutine; the cache must always hold text equal to its code and Get(c) must return text c", n, cfg.Bound))
 		c.Assume("pkg/edit/highlight rewritten for the controlled scheduler (time.After becomes a timer that may fire at any moment)")
 		ev := eval.NewEvaler()
 		cfgs := []Config{
